@@ -118,11 +118,18 @@ def _run_tmpl(outdir):
 def ensure(cfg="lib-default"):
     """Return the directory holding fact files for `cfg` on the current /repo tree."""
     os.makedirs(CACHE, exist_ok=True)
-    lock = open(os.path.join(CACHE, ".lock"), "w")
-    fcntl.flock(lock, fcntl.LOCK_EX)
+    glock = open(os.path.join(CACHE, ".lock"), "w")
+    fcntl.flock(glock, fcntl.LOCK_EX)
     try:
         build_engines()
-        key = tree_hash()
+    finally:
+        fcntl.flock(glock, fcntl.LOCK_UN)
+        glock.close()
+    key = tree_hash()
+    # one extraction per (tree, config) at a time; different trees are extracted concurrently
+    lock = open(os.path.join(CACHE, ".lock-%s-%s" % (key, cfg)), "w")
+    fcntl.flock(lock, fcntl.LOCK_EX)
+    try:
         d = os.path.join(CACHE, key, cfg)
         done = os.path.join(d, ".done")
         if not os.path.exists(done):
@@ -141,6 +148,11 @@ def ensure(cfg="lib-default"):
                 kp = os.path.join(CACHE, k)
                 if os.path.isdir(kp) and k != key and now - os.path.getmtime(kp) > 3 * 3600:
                     shutil.rmtree(kp, ignore_errors=True)
+                elif k.startswith(".lock-") and now - os.path.getmtime(kp) > 3 * 3600:
+                    try:
+                        os.remove(kp)
+                    except OSError:
+                        pass
         os.utime(os.path.join(CACHE, key), None)
         return d
     finally:
